@@ -16,9 +16,9 @@ EXPLANATION = (
     "previous_existing_band calls it; every other cycle of Stitch::next consumes from an iterator; (5) resume "
     "point: when last_apath is set the hunk iterator goes through advance_to_after(last_apath), and last_apath is "
     "updated from the last entry of each hunk that is installed; (6) a returned entry is the buffered entry itself."
+    " Added in later rounds: a band is left only when its hunk iterator is exhausted (C08.1b); inside a straddling hunk an exact hit resumes one later than a miss (C08.7); whole-hunk shortcuts use the sound end and relation (C08.8); the resume point survives while hunks are skipped (C08.9); the hunk is unmodified when its last path is recorded (C08.5b)."
 )
-UNDECIDED = ["the hunk-level cases of IndexHunkIter::try_next (hunk entirely before / entirely after the resume path); inside a straddling hunk only the Ok/Err arm relation of the binary search is decided (C08.7)",
-             "'strictly increasing, no duplicates' for every hunk alignment (value-level reasoning over all layouts)"]
+UNDECIDED = ["'strictly increasing, no duplicates' for every hunk alignment as a value-level statement (decided structurally: the whole-hunk shortcuts C08.8, the exact-hit/miss relation C08.7, the resume point C08.5/C08.9)"]
 ASSUMPTIONS = []
 
 SN = "index::stitch::Stitch::next"
